@@ -666,6 +666,47 @@ fn shard(seed: u64, shard: u64, n: u64) -> Tally {
     t
 }
 
+/// A run of consecutive signature-mismatch refusals with nothing else going on in the process (no other thread, no accepted
+/// request in between): what a brute-forcing client produces. Every one of them is scanned like any other case, so whatever
+/// a count of consecutive failures (per process, per thread, per access key) switches on is seen when it happens.
+fn refusal_burst(seed: u64, n: u64) -> Tally {
+    let mut t = Tally::new();
+    crate::exec::set_thread_log_max(log::LevelFilter::Debug);
+    let wrong_sig = INJECTORS.iter().position(|j| j.name == "wrong-signature").unwrap();
+    let mut r0 = Rng::keyed(seed, "C17", "burst-base", 0, 0);
+    let cfg = gen_cfg(&mut r0);
+    let base = gen_logical(&mut r0, &cfg, &GenOpts::default());
+    for i in 0..n {
+        let mut r = Rng::keyed(seed, "C17", "burst", 0, i);
+        // half of the run is the same client (one access key, one secret, one day) trying again
+        let mut l = if i % 2 == 0 {
+            base.clone()
+        } else {
+            gen_logical(&mut r, &cfg, &GenOpts::default())
+        };
+        if i % 2 == 1 {
+            let n = 16 + r.usize_below(25);
+            l.secret = r.string_from(B64ISH, n);
+        }
+        let mut sr = Rng::keyed(seed, "C17", "burst-spell", 0, i);
+        let mut sp = Speller {
+            r: &mut sr,
+            level: 0,
+        };
+        let (case, applied, _) = crate::defect::build_case_facts(&l, &cfg, &[wrong_sig], &mut r, &mut sp);
+        if applied.is_empty() {
+            continue;
+        }
+        let before = t.get("signature_mismatch_refusals_scanned");
+        scan_case_with(&mut t, &case, &format!("consecutive signature-mismatch refusal #{} of a run", i + 1), None);
+        if t.get("signature_mismatch_refusals_scanned") > before {
+            t.count("refusals_in_a_consecutive_run_scanned");
+        }
+    }
+    crate::exec::set_thread_log_max(log::LevelFilter::Trace);
+    t
+}
+
 /// Positive control on synthetic records: the scanner flags every encoded form when it is really there.
 fn scanner_control(t: &mut Tally) {
     let secret = "Zx9Qw3ErTy7UiOp1AsDf5GhJk2LzXcVb8NmQwErT";
@@ -728,6 +769,9 @@ pub fn run(tier: Tier) -> i32 {
     let seed = ctx.seed;
     let per = tier.n(3000, 100_000);
     let mut tally = ctx.par(32, |s| shard(seed, s, per));
+    // (alone in the process: the shards above have finished)
+    let burst = refusal_burst(seed, tier.n(300, 5000));
+    tally.merge(burst);
     scanner_control(&mut tally);
     if let Err(e) = &pre {
         tally.inconclusive.push(e.clone());
@@ -748,10 +792,11 @@ pub fn run(tier: Tier) -> i32 {
     ctx.gate("requests refused before the comparison (stray Authorization parameter, unsigned required header …) whose presented signature stays valid", tally.get("refused_before_the_comparison_with_a_signature_that_stays_valid"), tier.n(1000, 30_000));
     ctx.gate("signing-oracle probes (session token = string-to-sign of another request of the same key and scope)", tally.get("signing_oracle_probes"), tier.n(4000, 150_000));
     ctx.gate("public key / request / response types formatted", tally.get("public_key_types_formatted"), tier.n(10_000, 300_000));
+    ctx.gate("signature-mismatch refusals in one uninterrupted run (single thread, nothing accepted in between)", tally.get("refusals_in_a_consecutive_run_scanned"), tier.n(120, 2000));
     ctx.gate("log records at debug level or above judged", tally.get("log_records_judged/DEBUG") + tally.get("log_records_judged/INFO") + tally.get("log_records_judged/WARN") + tally.get("log_records_judged/ERROR"), tier.n(100, 1000));
     let rep = Report {
         level: "exploration",
-        rule: "Taint scan. Every execution of W-sign / W-defect (no defect, each injector alone — a refusal at every rank incl. every provider failure kind —, random pairs; both carriers, all option sets) runs with a capturing log::Log at max level Trace. Scanned: the error's Display and Debug plus its alternate / hex-flavoured / width / precision renderings and its source() chain, {} {:#} {:80} {:.8} {:?} {:#?} {:x?} {:#x?} {:X?} of KSecretKey…KSigningKey and of KeyTooLongError (also boxed and converted), GetSigningKeyRequest/Response, SigV4AuthenticatorResponse, (unstable feature) CanonicalRequest, AuthParams, SigV4Authenticator, returned principal/session, and every captured log record of level Error/Warn/Info/Debug, including records emitted while keys are constructed and values formatted (trace records are counted and used only as the control); a quarter of the shards run with the logger at Debug, as a deployment would. Patterns: secret, 'AWS4'+secret, kDate, kRegion, kService, kSigning — raw, hex, HEX, separated hex (`:`/space/`0x`/`\\x`, found after separators are stripped), base64 (std / url-safe, three alignments), decimal and hex lists ({:?} {:x?} {:X?} {:02x?} {:#04x?}), escape_ascii, escape_debug, lossy UTF-8, trimmed — and, for a refused request, the correct signature the reference model computes (either case); a match of ≥ 16 consecutive pattern bytes is a violation. Secrets are 16–64 random characters, or (one case in six) 2–7 characters from an alphabet nothing else in the workload uses, searched for as a whole (longer than 40: the provider's key type refuses them), a quarter with white space, a quote, a backslash or a non-ASCII character at an edge; wrong signatures include prefixes and one-digit-off variants of the correct one (then only the complete correct signature counts); when a request is refused for another reason although the signature it presented is the correct one (stale, wrong scope, a required header not signed, a provider failure), errors and values that hold what the client sent are not held against the library, but every log record at debug level or above is searched for that signature (for refusals before the comparison — a stray Authorization parameter, a required header left unsigned, a provider failure — the generator supplies the signature that becomes valid once the defect is taken away). One case in sixteen is a signing-oracle probe: a presigned URL whose session token is the string-to-sign of another request of the same key, day and scope; that request's correct signature is then a pattern. Distinct = distinct scanned cases by hash.".into(),
+        rule: "Taint scan. Every execution of W-sign / W-defect (no defect, each injector alone — a refusal at every rank incl. every provider failure kind —, random pairs; both carriers, all option sets) runs with a capturing log::Log at max level Trace. Scanned: the error's Display and Debug plus its alternate / hex-flavoured / width / precision renderings and its source() chain, {} {:#} {:80} {:.8} {:?} {:#?} {:x?} {:#x?} {:X?} of KSecretKey…KSigningKey and of KeyTooLongError (also boxed and converted), GetSigningKeyRequest/Response, SigV4AuthenticatorResponse, (unstable feature) CanonicalRequest, AuthParams, SigV4Authenticator, returned principal/session, and every captured log record of level Error/Warn/Info/Debug, including records emitted while keys are constructed and values formatted (trace records are counted and used only as the control); a quarter of the shards run with the logger at Debug, as a deployment would. Patterns: secret, 'AWS4'+secret, kDate, kRegion, kService, kSigning — raw, hex, HEX, separated hex (`:`/space/`0x`/`\\x`, found after separators are stripped), base64 (std / url-safe, three alignments), decimal and hex lists ({:?} {:x?} {:X?} {:02x?} {:#04x?}), escape_ascii, escape_debug, lossy UTF-8, trimmed — and, for a refused request, the correct signature the reference model computes (either case); a match of ≥ 16 consecutive pattern bytes is a violation. Secrets are 16–64 random characters, or (one case in six) 2–7 characters from an alphabet nothing else in the workload uses, searched for as a whole (longer than 40: the provider's key type refuses them), a quarter with white space, a quote, a backslash or a non-ASCII character at an edge; wrong signatures include prefixes and one-digit-off variants of the correct one (then only the complete correct signature counts); when a request is refused for another reason although the signature it presented is the correct one (stale, wrong scope, a required header not signed, a provider failure), errors and values that hold what the client sent are not held against the library, but every log record at debug level or above is searched for that signature (for refusals before the comparison — a stray Authorization parameter, a required header left unsigned, a provider failure — the generator supplies the signature that becomes valid once the defect is taken away). After the shards, alone in the process, an uninterrupted run of signature-mismatch refusals (300 / 5000, half of them one client trying again) is scanned the same way, logger at Debug. One case in sixteen is a signing-oracle probe: a presigned URL whose session token is the string-to-sign of another request of the same key, day and scope; that request's correct signature is then a pattern. Distinct = distinct scanned cases by hash.".into(),
         assumptions: vec!["leaks shorter than 16 consecutive bytes of a pattern are not detected, except whole short secrets of 4–15 bytes".into(), "trace-level records are outside the statement".into()],
         extra: J::obj().set("calibrated_vectors", J::i(pre.unwrap_or(0) as i64)),
     };
